@@ -1,16 +1,19 @@
 import ZCV.SExp
 import ZCV.Gen.CodeDatatypes
 import ZCV.Gen.CodeSubstitution
+import ZCV.Model.Datatypes
 /-!
 Second line-protocol driver: runs the GENERATED code (`ZCV/Gen/Code*.lean`, the translation of the Python source by
 `harness/zcv/pytrans.py`) so that the checks can compare it with the real functions — this validates the translator and
 the primitives of `ZCV/Py.lean`, which are part of the trusted base.  It is a separate executable on purpose: a function
 that leaves the translatable subset must not take the main driver (`zcdrv`, models and specs of all properties) down.
-Imports the generated code only (no model, no lemma).  Same S-expression conventions as `Driver.lean`.
+Imports the generated code (plus `ZCV.Model.Datatypes` for ONE definition, `DT.floatOk`, the acceptance of `float()` that the
+generated `timedelta` takes as a parameter); no lemma.  Same S-expression conventions as `Driver.lean`.
 
   (setdefs (("k" "v") …))  (setenv (("K" "v") …))   tables for `substitute`                → ok
   (code "<datatype name>" "text")                    the stock conversion's translation     → (ok <value>) | (err <Class>)
   (code "substitute" "text")                         with the tables set before             → (ok "text") | (err (syntax)) | (err (missing "source" "name"|none))
+  (code "timedelta" "text")                         constructor accepting everything              → (ok (w d h m s)), each none | "float literal"  | (err <Class>)
   (code "isname" "text")                                                                    → (ok (b t|f))
   (code "_split" "text")                                                                    → (ok (tup p name namecase suffix vtype)) | (err (syntax))
 values: (s "…") (i n) (b t|f) none (list …) (tup …), as `Codec.encVal` writes them.
@@ -26,6 +29,7 @@ def excName : PyExc → SExp
   | .ValueError => .atom "ValueError"
   | .TypeError => .atom "TypeError"
   | .OverflowError => .atom "OverflowError"
+  | .IndexError => .atom "IndexError"
   | .SubstitutionSyntaxError => .list [.atom "syntax"]
   | .SubstitutionReplacementError s n => .list [.atom "missing", .str s, ofOpt .str n]
   | .Other n => .str n
@@ -72,6 +76,12 @@ def handle (st : DState) : SExp → DState × SExp
       | "socket-address" => res vSock (Gen.Code.socket_address s)
       | "socket-binding-address" => res vSock (Gen.Code.socket_binding_address s)
       | "socket-connection-address" => res vSock (Gen.Code.socket_connection_address s)
+      -- timedelta: float() accepts what the model's grammar `DT.floatOk` accepts (the one definition taken from a model file:
+      -- the generated code has it as a parameter); the constructor accepts everything and the answer lists its arguments
+      | "timedelta" =>
+        let num : Num → SExp := fun n => match n with | .int 0 => .atom "none" | .int i => vInt i | .float l => .str l
+        res (fun t => .list [num t.weeks, num t.days, num t.hours, num t.minutes, num t.seconds])
+          (Gen.Code.timedelta DT.floatOk (fun w d h m s => .ok ⟨w, d, h, m, s⟩) s)
       | "substitute" => res .str (Gen.Code.substitute (assocFn st.env) s (assocFn st.defs))
       | "isname" => res vBool (Gen.Code.isname s)
       | "_split" => res (fun t => .list [.atom "tup", vStr t.1, vOptStr t.2.1, vOptStr t.2.2.1, vOptStr t.2.2.2.1, vOptStr t.2.2.2.2])
